@@ -15,7 +15,7 @@ open ALV.Driver.C04 (getMem varJson atomJson gainJson errJson)
     numdiv, dendiv (optional) : a Stream by which the numerator / denominator `Poly` is divided
   entry "call2": as "call" plus  second : {mem (optional), zero, xs}  — the same filter object called again
     payload: {"model": {"first": <as for "call">, "second": {"err":kind} | {"out":[…]}, "gainpath":bool,
-                        "den_after": the object's denominator after the first call (shapes)},
+                        "den_after": the object's denominator after the first call},
               "spec":  {"first": {"err"} | {"out"}, "second": {"err"} | {"out"}}}
   entry "expr":
     tree : ["z",k] | ["c",q] | ["s",[q…]] | ["neg",t] | ["add"|"sub"|"mul"|"div", l, r]   (+ mem, zero, xs)
@@ -128,6 +128,16 @@ def handle (entry : String) (j : Json) : Except String Json := do
     let dendiv ← match optField j "dendiv" with
       | some c => do pure (some (← getCoef c))
       | none => pure none
+    -- optional: the numerator `Poly` is divided by a `Poly` (`Poly.__truediv__`: one term — every
+    -- coefficient divided by that term, powers shifted —, none: ZeroDivisionError, several:
+    -- NotImplementedError)
+    let numpdiv ← match optField j "numpdiv" with
+      | some c => do pure (some (← getList getPair c))
+      | none => pure none
+    -- optional: `filt.denpoly[0] = v` on the built object before the call (`Poly.__setitem__`)
+    let setden0 ← match optField j "setden0" with
+      | some c => do pure (some (← getCoef c))
+      | none => pure none
     let divM (p : Terms (Coef Rat)) (c : Option (Coef Rat)) : Terms (Coef Rat) :=
       match c with
       | none => p
@@ -138,19 +148,47 @@ def handle (entry : String) (j : Json) : Except String Json := do
       match c with
       | none => p
       | some c => p.map (fun kv => if kv.2 = 0 then kv else (kv.1, kv.2 / c))   -- a zero stays absent
+    let pyErr (e : ALV.C07.PyErr) : Json := Json.mkObj [("err", Json.str e.name)]
+    -- numerator polynomial of the model / numerator pairs of the spec after the Poly division
+    let numM : Except ALV.C07.PyErr (Terms (Coef Rat)) :=
+      match numpdiv with
+      | none => .ok (divM (mkPoly num) numdiv)
+      | some pd => ALV.C07.divPoly (mkPoly num) (ALV.C07.mk pd)
+    let numS : List (Int × Coef Rat) :=
+      match numpdiv with
+      | none => divS num numdiv
+      | some pd => match ALV.C07.mk pd with
+        | [(d, w)] => num.map (fun kv => if kv.2 = 0 then (kv.1 - d, kv.2) else (kv.1 - d, kv.2 / w))
+        | _ => num
+    let setM (d0 : Terms (Coef Rat)) : Terms (Coef Rat) :=
+      match setden0 with
+      | none => d0
+      | some v => ALV.C07.setItem d0 0 v
     let model : Json :=
-      match normalise (divM (mkPoly num) numdiv) (divM (mkPoly den) dendiv) with
-      | .error e => errJson e
-      | .ok (n0, d0) => callJson n0 d0 mem zero xs
+      match numM with
+      | .error e => pyErr e
+      | .ok nM =>
+        match normalise nM (divM (mkPoly den) dendiv) with
+        | .error e => errJson e
+        | .ok (n0, d0) => callJson n0 (setM d0) mem zero xs
+    let denS := divS den dendiv
     let spec : Json :=
-      match specCallTV (divS num numdiv) (divS den dendiv) mem zero xs with
-      | .error e => errJson e
-      | .ok out => Json.mkObj [("out", rats out)]
+      match numM, setden0 with
+      | .error e, _ => pyErr e
+      | .ok _, some (.const 0) => model      -- a deleted gain: outside the property, the model's answer
+      | .ok _, sd =>
+        let denS' : List (Int × Coef Rat) :=
+          match sd, listMin (keysNZ denS) with
+          | some v, some p => denS ++ [(p, v)]
+          | _, _ => denS
+        match specCallTV numS denS' mem zero xs with
+        | .error e => errJson e
+        | .ok out => Json.mkObj [("out", rats out)]
     pure <| Json.mkObj [("model", model), ("spec", spec)]
   | "call2" =>
     -- two calls of the SAME filter object, the first output consumed to its end before the second
-    -- call: "second" : {mem (optional), zero, xs}.  model = the code as it is (`callTwice`: the
-    -- coefficient iterators as the first call left them; a Stream-gain call deletes denpoly[0]);
+    -- call: "second" : {mem (optional), zero, xs}.  model = the code (`callTwice` / `objAfter`: the
+    -- object keeps its polynomials, every coefficient Stream is where the first call left it);
     -- spec = the contract over the history (`specCallTwice`: the coefficient streams continued)
     let num ← getList getPair (← field j "num")
     let den ← getList getPair (← field j "den")
@@ -172,11 +210,7 @@ def handle (entry : String) (j : Json) : Except String Json := do
         let r := callTwice n0 d0 mem zero xs mem2 zero2 xs2
         Json.mkObj [("first", callJson n0 d0 mem zero xs), ("second", outJson (r.2.map Prod.fst)),
                     ("gainpath", Json.bool (coefAt d0 0).isStream),
-                    ("den_after", pairsJson (match r.1 with
-                      | .ok _ => (match coefAt d0 0 with
-                                  | .strm _ => denAfterCall n0 d0
-                                  | .const _ => d0)
-                      | .error _ => denAfterCall n0 d0))]
+                    ("den_after", pairsJson (objAfter n0 d0 r.1).2)]
     let r := specCallTwice num den mem zero xs mem2 zero2 xs2
     let spec : Json := Json.mkObj [("first", outJson r.1), ("second", outJson r.2)]
     pure <| Json.mkObj [("model", model), ("spec", spec)]
